@@ -188,7 +188,7 @@ def _quant(E, is_all, gens, idx, elt, st):
         # whole-sort quantifier: explicit trigger (the prover mentions trig(c) for every skolem constant c)
         if is_all:
             return z3.ForAll(bs, z3.Implies(z3.And([guard] + conds), body), patterns=[trig(bs[0])])
-        return z3.Exists(bs, z3.And([guard] + conds + [body, trig(bs[0])]))
+        return z3.Exists(bs, z3.And([guard] + conds + [body]))
     if is_all:
         return z3.ForAll(bs, z3.Implies(z3.And([guard] + conds), body))
     return z3.Exists(bs, z3.And([guard] + conds + [body]))
@@ -356,7 +356,11 @@ def _list_comp(E, gens, elt, st):
             st.bound.pop()
     R = E.fresh(TList(e.ty), "flatmap")
     v = z3.Const(E.fresh_name("fv"), E.U.sort(e.ty))
-    facts = [z3.ForAll([v], E.seq_member(R.t, v) == z3.Exists(bs_all, z3.And(guards + [e.t == v])))]
+    member_body = z3.Exists(bs_all, z3.And(guards + [e.t == v]))
+    facts = [z3.ForAll([v], E.seq_member(R.t, v) == member_body)]
+    # `x in R` is answered from the characterisation directly (no instantiation of the fact above is needed)
+    E.flatmaps = getattr(E, "flatmaps", {})
+    E.flatmaps[R.t.get_id()] = (v, member_body)
     E.assumptions.add("schematic rule FLATMAP: a multi-generator comprehension is characterised by its members only (order/multiplicity unconstrained)")
     return R, facts
 
